@@ -357,6 +357,11 @@ struct OneShotSim : Sim {
                 int ks = (int) (o.a % 2), f = (int) ((o.a >> 1) % 3), ex = (int) ((o.a >> 3) % 2), api = g_force_family_api ? 0 : (int) ((o.a >> 4) % 2), inplace = (int) ((o.a >> 5) % 2);
                 int k = ks ? 2 : 0;
                 size_t len = len_class(OK_XTS, o.b);
+                // 1 call in 32: a sector shorter than one block (outside the algorithm's domain). The isal_ wrappers refuse it; the family
+                // symbols and the deprecated twins return without processing - also an exit path of an AES entry point (C14/C19/C08 apply)
+                const bool undersized = ((o.b >> 12) & 31) == 7;
+                if (undersized)
+                        len = (size_t) ((o.b >> 3) % 16);
                 Rng g((uint64_t) o.c, "xts");
                 uint8_t *key1 = e.mem.alloc(KB[k], 1, (Place) (o.d % 3), nullptr, "xts key1", R_INPUT, (size_t) ((o.d >> 2) % 16));
                 uint8_t *key2 = e.mem.alloc(KB[k], 1, (Place) ((o.d >> 6) % 3), nullptr, "xts key2", R_INPUT, (size_t) ((o.d >> 8) % 16));
@@ -413,7 +418,10 @@ struct OneShotSim : Sim {
                                 nm = strfmt("_XTS_AES_%d_%s%s_%s", BITS[k], dec ? "dec" : "enc", ex ? "_expanded_key" : "", xts_f[f]);
                                 e.call(nm.c_str(), O.xts[ks][dec][ex][f], { U(a2), U(a1), U(tweak), len, U(in), U(out) });
                         }
-                        e.obs_bytes(0xa21 + dec, out, len);
+                        if (!undersized)
+                                e.obs_bytes(0xa21 + dec, out, len); // nothing is written for an undersized sector: the bytes are the caller's
+                        else
+                                r.cov.hit("probe_xts_sector_shorter_than_a_block");
                         e.check_buf(out, nm.c_str());
                         if (!inplace)
                                 e.check_buf(in, nm.c_str());
@@ -421,7 +429,7 @@ struct OneShotSim : Sim {
                                 e.check_buf(b, nm.c_str());
                         if (!dec)
                                 ct.assign(out, out + len);
-                        else if (memcmp(out, pt.data(), len) != 0)
+                        else if (!undersized && memcmp(out, pt.data(), len) != 0)
                                 r.cov.hit("health_xts_roundtrip_mismatch");
                 }
                 r.cov.state(mix64(0xd0 + ks * 16 + f * 4 + ex * 2 + api, mix64(len % 256 < 16 * 17 ? len % 256 : 999, (uint64_t) inplace)));
